@@ -832,8 +832,6 @@ Proof.
 Qed.
 
 (* ================================================================== 9. composed with C13: the kernel's indices *)
-Definition has_tag (t : Z) (x : Z) : bool := x =? t.
-
 Lemma positions_z_of_tag t l : positions (has_tag (z_of_tag t)) (map z_of_tag l) = positions (is_tag t) l.
 Proof.
   unfold positions. rewrite positions_from_map. apply positions_from_ext. intros x _.
@@ -866,4 +864,163 @@ Proof.
   exists (map z_of_tag (multi_round_tags rounds)), e. split; [exact T|]. split; [exact Ee|]. split; [now rewrite map_length|].
   change T_HERALDED with (z_of_tag THeralded). change T_PARITY with (z_of_tag TParity). change T_FINAL with (z_of_tag TFinal).
   rewrite !positions_z_of_tag. repeat split; assumption.
+Qed.
+
+(* ================================================================== 10. the labelled sequence (which block a measurement belongs to) *)
+Lemma listed_ops_chain ns : is_chain ns -> (length ns <= max_layers)%nat -> listed_ops ns = map n_op ns.
+Proof.
+  intros C L. unfold listed_ops. rewrite C, chain_bfs by exact L.
+  rewrite <- (map_map (fun i => nth i ns (Node None LNone (OComp 0 []))) n_op). f_equal. apply map_nth_seq.
+Qed.
+
+Lemma labelled_blocks q D rounds subs rest (W : Z -> list Z) :
+  Forall2 (fun r o => op_tags q o = W r) rounds subs ->
+  labelled_ops q rounds (flat_map (fun o => [o; OLeaf (barrier_leaf D)]) subs ++ rest)
+  = flat_map (fun r => map (fun x => (x, Block r)) (W r)) rounds ++ labelled_ops q [] rest.
+Proof.
+  induction 1 as [|r o t s Hro _ IH]; [reflexivity|]. cbn [flat_map app labelled_ops]. rewrite Hro, IH. now rewrite app_assoc.
+Qed.
+
+Definition cal_op (env : denv) (Q : list Z) (s : Z) : op := cmd_op env (CSub 1 (calibrate_with_heralded Q s)).
+
+Lemma cal_graph_facts env Q a : NoDup Q -> In a Q -> 5 * Z.of_nat (length Q) <= 4999 ->
+  is_chain (cal_graph env Q) /\ map n_op (cal_graph env Q) = [cal_op env Q 0; cal_op env Q 1; cal_op env Q 2].
+Proof.
+  intros N Ha S.
+  pose proof (cal_state env Q a 0 N Ha S) as [T0 I0]. pose proof (cal_state env Q a 1 N Ha S) as [T1 I1].
+  pose proof (cal_state env Q a 2 N Ha S) as [T2 I2]. fold (cal_op env Q 0) in *. fold (cal_op env Q 1) in *. fold (cal_op env Q 2) in *.
+  set (o0 := cal_op env Q 0) in *. set (o1 := cal_op env Q 1) in *. set (o2 := cal_op env Q 2) in *.
+  assert (Eg : cal_graph env Q = add_node env (add_node env (add_node env [] o0 LNone) o1 LNone) o2 LNone).
+  { unfold cal_graph, calibration_prog, run_prog. cbn [app]. rewrite !run_cmds_cons. reflexivity. }
+  set (g1 := add_node env [] o0 LNone) in *. set (g2 := add_node env g1 o1 LNone) in *.
+  assert (L1 : length g1 = 1%nat) by apply add_node_length.
+  assert (L2 : length g2 = 2%nat) by (unfold g2; now rewrite add_node_length, L1).
+  pose proof max_layers_eq as ML.
+  assert (C1 : is_chain g1). { apply add_to_chain; [apply is_chain_nil | cbn; lia |]. intros n En. destruct n; discriminate. }
+  assert (C2 : is_chain g2).
+  { apply add_to_chain; [exact C1 | lia |]. intros n En. apply last_added in En. rewrite En. exact (block_block_match a _ _ o1 o0 I1 I0). }
+  split.
+  - rewrite Eg. apply add_to_chain; [exact C2 | lia |]. intros n En. apply last_added in En. rewrite En. exact (block_block_match a _ _ o2 o1 I2 I1).
+  - rewrite Eg. unfold g2, g1. now rewrite !add_node_ops.
+Qed.
+
+Lemma copy_op_leaves env o : cwf o -> op_leaves (copy_op env o) = op_leaves o.
+Proof.
+  intros C. rewrite <- (listing_op_leaves env (copy_op env o) None (0, 0)), <- (listing_op_leaves env o None (0, 0)).
+  f_equal. apply copy_same_listing_op. exact C.
+Qed.
+
+(* the calibration sub-circuit as it is nested: three nodes in listing order, the copies of the three states' sub-circuits *)
+Lemma cal_sub_nodes env D a : NoDup (r_qubits D) -> In a (r_qubits D) -> 5 * Z.of_nat (length (r_qubits D)) <= 4999 ->
+  exists cs, cal_sub env D = OComp 1 cs /\ length cs = 3%nat
+    /\ listed_ops cs = map (fun s => copy_op env (cal_op env (r_qubits D) s)) [0; 1; 2]
+    /\ forall s, In s [0; 1; 2] -> op_leaves (copy_op env (cal_op env (r_qubits D) s)) = op_leaves (cal_op env (r_qubits D) s).
+Proof.
+  intros N Ha S. set (Q := r_qubits D) in *. destruct (cal_graph_facts env Q a N Ha S) as [C Ho].
+  pose proof (run_prog_cwf env 1 _ (cal_sized Q S)) as W. change (run_prog env (calibration_prog Q true)) with (cal_graph env Q) in W.
+  assert (L3 : length (cal_graph env Q) = 3%nat) by (rewrite <- (map_length n_op), Ho; reflexivity).
+  destruct (copy_iso env 1 _ W) as (_ & Ec & _ & Eb).
+  pose proof max_layers_eq as ML.
+  rewrite C, chain_bfs, L3 in Ec by lia.
+  exists (copy_nodes env (cal_graph env Q)). split; [reflexivity|].
+  assert (Lc : length (copy_nodes env (cal_graph env Q)) = 3%nat) by (rewrite Ec; reflexivity).
+  split; [exact Lc|]. split.
+  - unfold listed_ops. rewrite Eb, L3. rewrite Ec. cbn [seq map nth n_op].
+    assert (Hn : forall i, n_op (nth i (cal_graph env Q) dummy_node) = nth i (map n_op (cal_graph env Q)) (n_op dummy_node)) by (intros i; now rewrite map_nth).
+    rewrite !Hn, Ho. reflexivity.
+  - intros s Hs. apply copy_op_leaves. apply cwf_comp_inv in W as (_ & _ & F).
+    assert (In (cal_op env Q s) (map n_op (cal_graph env Q))) as Hin.
+    { rewrite Ho. destruct Hs as [<- | [<- | [<- | []]]]; simpl; auto. }
+    apply in_map_iff in Hin as (n & <- & Hn). rewrite Forall_forall in F. exact (F n Hn).
+Qed.
+
+Lemma Forall2_impl_In {A B} (P R : A -> B -> Prop) l l' : Forall2 P l l' -> (forall x y, In x l -> P x y -> R x y) -> Forall2 R l l'.
+Proof.
+  induction 1 as [|x y l l' Hxy _ IH]; intros H; constructor.
+  - apply H; [now left | exact Hxy].
+  - apply IH. intros x' y' Hx'. apply H. now right.
+Qed.
+
+Lemma z_labelled_eq rounds : z_labelled (multi_round_labelled rounds)
+  = flat_map (fun r => map (fun x => (x, Block r)) (map z_of_tag (block_tags r))) rounds ++ z_labelled calibration_labelled.
+Proof.
+  unfold z_labelled, multi_round_labelled. rewrite map_app. f_equal.
+  induction rounds as [|r t IH]; [reflexivity|]. cbn [flat_map]. rewrite map_app, IH, !map_map. reflexivity.
+Qed.
+
+Theorem multi_labelled env D init anc rounds a :
+  desc_ok D -> multi_small D init anc rounds -> In a (r_anc D) ->
+  (forall r, In r rounds -> block_heralded_first D init anc r a = true) ->
+  circuit_labelled env D init anc rounds a = Some (z_labelled (multi_round_labelled rounds)).
+Proof.
+  intros K (SB & SL & SC) Ha HF. pose proof (desc_ok_anc_qubit D a K Ha) as Hq.
+  assert (NQ : NoDup (r_qubits D)) by (destruct K as (NQ & _); exact NQ).
+  destruct (cal_block env D a NQ Hq SC) as [Tc Ic].
+  assert (HB : forall r, In r rounds -> exists f, block_flat env D init anc r = Some f
+      /\ In (lf_meas a T_HERALDED) (op_leaves (OComp 1 (copy_nodes env f)))
+      /\ op_tags a (OComp 1 (copy_nodes env f)) = map z_of_tag (block_tags r)).
+  { intros r Hr. rewrite Forall_forall in SB. destruct (SB r Hr) as [Hr0 Sm].
+    exact (block_facts env D init anc r a K Hr0 Sm Ha (HF r Hr)). }
+  destruct (multi_round_structure env D init anc a rounds Hq) as (ns & subs & E & C & Ln & F & Ho); [| | exact Ic |].
+  { intros r Hr. destruct (HB r Hr) as (f & Ef & Hm & _). exists (OComp 1 (copy_nodes env f)). split; [|exact Hm].
+    exists f. split; [exact Ef | reflexivity]. }
+  { pose proof max_layers_eq. lia. }
+  unfold circuit_labelled. rewrite E. cbn [option_map]. f_equal.
+  rewrite (listed_ops_chain ns C Ln), Ho.
+  rewrite (labelled_blocks a D rounds subs [cal_sub env D] (fun r => map z_of_tag (block_tags r))).
+  - rewrite z_labelled_eq. f_equal.
+    destruct (cal_sub_nodes env D a NQ Hq SC) as (cs & Ecs & Lc & Eo & El). rewrite Ecs. cbn [labelled_ops]. rewrite Lc, Eo.
+    cbn [seq map combine flat_map fst snd app]. unfold op_tags. rewrite !El by (simpl; auto).
+    destruct (cal_state env (r_qubits D) a 0 NQ Hq SC) as [T0 _]. destruct (cal_state env (r_qubits D) a 1 NQ Hq SC) as [T1 _].
+    destruct (cal_state env (r_qubits D) a 2 NQ Hq SC) as [T2 _]. unfold cal_op. rewrite T0, T1, T2. reflexivity.
+  - eapply Forall2_impl_In; [exact F|]. intros r o Hr (f' & Ef' & ->). destruct (HB r Hr) as (f & Ef & _ & T).
+    rewrite Ef in Ef'. injection Ef' as <-. exact T.
+Qed.
+
+(* ================================================================== 10. per block, in the form of C13_kernels_agree_with_circuit *)
+Lemma pos_zl t l L : positions (is_zl (z_of_tag t) l) (z_labelled L) = positions (is_tl t l) L.
+Proof.
+  unfold positions, z_labelled. rewrite positions_from_map. apply positions_from_ext. intros x _.
+  unfold is_zl, is_tl. cbn [fst snd]. f_equal. destruct (fst x), t; reflexivity.
+Qed.
+
+Theorem multi_kernel_agrees_blocks env D init anc rounds a data_ids anc_ids q :
+  desc_ok D -> multi_small D init anc rounds -> In a (r_anc D) ->
+  (forall r, In r rounds -> block_heralded_first D init anc r a = true) ->
+  rounds <> [] -> NoDup rounds -> is_member q anc_ids = true ->
+  exists lab e, circuit_labelled env D init anc rounds a = Some lab
+  /\ circuit_kernel rounds data_ids anc_ids = Value e
+  /\ Z.of_nat (length lab) = RepetitionExperimentKernel_kernel_cycle_length e
+  /\ (forall n, In n rounds ->
+        positions (is_zl T_HERALDED (Block n)) lab
+          = concat (RepetitionExperimentKernel_get_heralded_cycle_acquisition_indices e q n)
+        /\ positions (is_zl T_PARITY (Block n)) lab
+          = concat (RepetitionExperimentKernel_get_stabilizer_and_projected_cycle_acquisition_indices e q n)
+        /\ (1 <= n -> positions (is_zl T_FINAL (Block n)) lab = []
+                      /\ concat (RepetitionExperimentKernel_get_projected_cycle_acquisition_indices e q n)
+                         = [last (positions (is_zl T_PARITY (Block n)) lab) 0]))
+  /\ (In 0 rounds -> exists k, In k (RepetitionExperimentKernel__repetition_kernels e)
+        /\ RepetitionIndexKernel_nr_repeated_parities k = 0
+        /\ positions (is_zl T_FINAL (Block 0)) lab = [RepetitionIndexKernel_stop_index k]
+        /\ RepetitionExperimentKernel_get_projected_cycle_acquisition_indices e q 0 = [[]]
+        /\ RepetitionExperimentKernel_get_stabilizer_and_projected_cycle_acquisition_indices e q 0 = [[]]
+        /\ ~ In (RepetitionIndexKernel_stop_index k) (cycle_indices e q))
+  /\ (forall st, positions (is_zl T_HERALDED (Cal st)) lab
+                   = RepetitionExperimentKernel_get_heralded_calibration_acquisition_indices e q st
+              /\ positions (is_zl T_FINAL (Cal st)) lab
+                   = RepetitionExperimentKernel_get_projected_calibration_acquisition_indices e q st
+              /\ positions (is_zl T_PARITY (Cal st)) lab = []).
+Proof.
+  intros K Sm Ha HF NE ND Hq.
+  assert (Pos : Forall (fun r => 0 <= r) rounds).
+  { destruct Sm as (SB & _). eapply Forall_impl; [|exact SB]. intros r [H _]. exact H. }
+  pose proof (multi_labelled env D init anc rounds a K Sm Ha HF) as T.
+  destruct (kernels_agree_with_circuit rounds data_ids anc_ids q NE ND Pos Hq) as (e & Ee & Len & HB & H0 & HC).
+  exists (z_labelled (multi_round_labelled rounds)), e. split; [exact T|]. split; [exact Ee|].
+  change T_HERALDED with (z_of_tag THeralded). change T_PARITY with (z_of_tag TParity). change T_FINAL with (z_of_tag TFinal).
+  split; [|split; [|split]].
+  - rewrite <- Len. unfold z_labelled, multi_round_tags. now rewrite !map_length.
+  - intros n Hn. rewrite !pos_zl. exact (HB n Hn).
+  - intros Hz. rewrite !pos_zl. exact (H0 Hz).
+  - intros st. rewrite !pos_zl. exact (HC st).
 Qed.
